@@ -22,7 +22,8 @@ Entry kinds:
 Live pre-states of a non-directory slot:
     file (hardlinked with the bystander /u2, longer than any new content), file+stale (same plus an unrelated
     sibling "<name>#new"), symf (symlink to bystander file /u), symd (symlink to bystander dir /x), dang, fifo,
-    dir (a directory holding a file z)
+    dir (a directory holding a file z), dirx (the same, and additionally the path "<slot>/<sd target>" resolves to a
+    directory: the one shape in which merge_contents tolerates a symlink entry over a real directory and carries on)
 Live pre-states of a directory slot D/E:
     dir (odd mode and owner, holding an unrelated file z), lnk (symlink to a directory elsewhere: /xd, /xe),
     dang (dangling symlink), file
@@ -173,11 +174,14 @@ def build_dst(dst, scn):
         elif st == "fifo":
             os.mkfifo(p)
             _chattr(p, 0o600, 4321, 5432, 999999997)
-        elif st == "dir":
+        elif st in ("dir", "dirx"):
             os.mkdir(p)
             _write(p + "/z", b"bystander\n")
             _chattr(p + "/z", 0o644, 77, 88, 900000002)
             late.append((PATH[slot], PRE_DIR_MODE) + PRE_DIR_OWNER)
+            if st == "dirx":
+                # "<slot>/<target of an sd entry>" ("x" below /l, "../x" elsewhere) is a directory
+                os.makedirs(p + "/" + sym_target(slot, "sd"), exist_ok=True)
         else:
             raise ValueError(st)
     for rel, mode, uid, gid in late:
@@ -240,9 +244,12 @@ def analyse(scn):
     soft       real directories standing behind a symlink at a *listed* directory entry: kind and mode must not
                change (a pre-existing directory keeps its permissions); owner is not compared
     tmp        the '<entry>#new' names the merge protocol reserves
+    skip       slots whose own entry (or whose parent directory) is part of a forbidden overlap; if merge_contents
+               nevertheless returns normally, every *other* entry is still judged in full
     """
     tree, pre = scn["tree"], scn["pre"]
     conflict, inset, created_ok, soft, tmp = [], set(), set(), set(), set()
+    skip = set()
     if scn["off"] == "new":
         created_ok.add("/")
     for ds in used_dirs(scn):
@@ -251,6 +258,7 @@ def analyse(scn):
             inset.add(PATH[ds])
             if st == "file":
                 conflict.append(f"directory entry {PATH[ds]} over a regular file")
+                skip.add(ds)
             if st == "lnk":
                 soft.add(LNKT[ds])
         else:
@@ -258,6 +266,7 @@ def analyse(scn):
                 created_ok.add(PATH[ds])
             elif st in ("file", "dang"):
                 conflict.append(f"parent {PATH[ds]} of an entry is a {st} and no directory entry is listed")
+                skip.add(ds)
     for slot, kind in tree.items():
         st = pre.get(slot)
         lex = PATH[slot]
@@ -270,11 +279,14 @@ def analyse(scn):
         if kind == "dir":
             if st in ("file", "file+stale", "symf", "fifo"):
                 conflict.append(f"directory entry {lex} over a {st}")
+                skip.add(slot)
             if st == "symd":
                 soft.add("/x")
-        elif st == "dir":
+        elif st in ("dir", "dirx"):
             conflict.append(f"{KIND[kind]['kind']} entry {lex} over a directory")
-    return {"conflict": conflict, "inset": inset, "created_ok": created_ok, "soft": soft, "tmp": tmp}
+            skip.add(slot)
+    skip.update(s for s in tree if PARENT[s] in skip)
+    return {"conflict": conflict, "inset": inset, "created_ok": created_ok, "soft": soft, "tmp": tmp, "skip": skip}
 
 
 def frame_violations(scn, an, before, after):
@@ -310,7 +322,7 @@ def frame_violations(scn, an, before, after):
     return msgs
 
 
-def placed_violations(scn, dst):
+def placed_violations(scn, dst, skip=()):
     """'every entry exists at its location with its type, file data, symlink target and recorded mtime; created
     entries carry the recorded mode and ownership; same-inode sources are hardlinked; pre-existing directories keep
     their permissions' -- judged with direct os calls on the lexical locations."""
@@ -320,6 +332,8 @@ def placed_violations(scn, dst):
     pre = scn["pre"]
     if scn["dirs"] == "listed":
         for ds in used_dirs(scn):
+            if ds in skip:
+                continue
             p = dst + PATH[ds]
             try:
                 st = os.stat(p)
@@ -341,7 +355,7 @@ def placed_violations(scn, dst):
     inodes = {}
     for slot in NONDIR_SLOTS:
         kind = scn["tree"].get(slot)
-        if kind is None:
+        if kind is None or slot in skip:
             continue
         m = entry_spec(slot, kind)
         p = dst + m["path"]
@@ -355,8 +369,8 @@ def placed_violations(scn, dst):
             st = os.stat(p)
             if not S.S_ISDIR(st.st_mode):
                 msgs.append(f"directory entry {m['path']} is a {got_kind} after merge")
-            elif pre.get(slot) in ("dir", "symd"):
-                want_mode = PRE_DIR_MODE if pre.get(slot) == "dir" else 0o711
+            elif pre.get(slot) in ("dir", "dirx", "symd"):
+                want_mode = 0o711 if pre.get(slot) == "symd" else PRE_DIR_MODE
                 if S.S_IMODE(st.st_mode) != want_mode:
                     msgs.append(f"pre-existing directory {m['path']} lost its permissions: {oct(want_mode)} -> {oct(S.S_IMODE(st.st_mode))}")
             else:
